@@ -21,7 +21,7 @@
 // gc modes: pure = StoreProbe.GCResolveLockPhase on the unmodified mock; shim = Runner + tikv.ResolveLocksForRange
 // with the given scan limit, over an RPC wrapper that (a) applies StartKey/EndKey/Limit of ScanLock to the mock's
 // answer and (b) hands the batched TxnInfos of ResolveLock to the mock's own MVCCStore.BatchResolveLock (the mock's
-// RPC handler ignores both; see known finding); phase = GCResolveLockPhase over the same wrapper.
+// RPC handler ignored both before /repo a713e36; it honours the TxnInfos form now); phase = GCResolveLockPhase over the same wrapper.
 package main
 
 import (
@@ -1253,7 +1253,7 @@ func main() {
 	for i := 0; i < nVis; i++ {
 		g.caseVis()
 	}
-	// the unmodified mock last (known finding S6: its ResolveLock handler ignores the batched TxnInfos)
+	// the unmodified mock last (S6, fixed in /repo a713e36: its ResolveLock handler ignored the batched TxnInfos)
 	g.begin("gc-pure-minimal")
 	g.do("txn 10 pending 0 61 61,62 61,62")
 	g.do("gc pure 20 1024 128 1")
